@@ -1,5 +1,5 @@
 SPECIFICATION Spec
-CONSTANT LateRegistration = FALSE
+CONSTANT LateRegistration = TRUE
 INVARIANT NothingLeaks
 PROPERTY Returns
 CHECK_DEADLOCK FALSE
